@@ -75,7 +75,7 @@ func init() {
 	for _, id := range []string{"C01", "C04", "C09", "C13", "C14", "C16", "C17", "C18"} {
 		reg(id, propCfg{})
 	}
-	reg("C02", propCfg{QuickShards: 2, OldTimers: true, Fuzz: []string{"FuzzPartition", "FuzzPartitionGrammar", "FuzzEpochs"}, FuzzSeconds: 90})
+	reg("C02", propCfg{QuickShards: 2, OldTimers: true, ThorTimeout: 75 * time.Minute, Fuzz: []string{"FuzzPartition", "FuzzPartitionGrammar", "FuzzEpochs"}, FuzzSeconds: 90})
 	reg("C03", propCfg{Fuzz: []string{"FuzzConcat"}, FuzzSeconds: 60})
 	reg("C07", propCfg{Fuzz: []string{"FuzzPrograms", "FuzzRobust"}, FuzzSeconds: 90})
 	reg("C08", propCfg{Fuzz: []string{"FuzzHistory"}, FuzzSeconds: 60})
